@@ -1453,6 +1453,8 @@ write_gvar_data(Relocation *cur, Initializer *init, Type *ty, char *buf, int off
         char *loc = buf + offset + mem->offset;
         uint64_t oldval = read_buf(loc, mem->ty->size);
         uint64_t newval = eval(expr);
+        if (mem->ty->kind == TY_BOOL)
+          newval = is_flonum(expr->ty) ? eval_double(expr) != 0 : newval != 0;
         uint64_t mask = (mem->bit_width == 64) ? -1UL : (1UL << mem->bit_width) - 1;
         uint64_t combined = oldval | ((newval & mask) << mem->bit_offset);
         write_buf(loc, combined, mem->ty->size);
